@@ -17,7 +17,13 @@ RULE = ("genomes of 1..4 chromosomes (sizes 0..6; names where one is a prefix of
         "with sizes <= 3 x every global position / every local position for the coordinate maps, every pair of boundary-"
         "touching intervals for merge. Each public entry point (Genome.get_intervals(..).get_mask/get_pileup/merged/clip/"
         "extended_to_size/sorted/get_location, GenomicLocation.get_windows, GenomicArray[intervals], GenomicSequence[intervals], "
-        "Geometry.*, GlobalOffset.*) is compared with the single-contig operation applied per chromosome. Non-trivial = "
+        "Geometry.*, GlobalOffset.*) is compared with the single-contig operation applied per chromosome. Pile-ups and masks "
+        "are observed per chromosome AND genome-wide (sum, number of zero positions, np.histogram with given bins, genome size, "
+        "Geometry.get_global_mask as a dense array) against the concatenation of the INCLUDED chromosomes' own arrays, with "
+        "ignored ('_') chromosomes of several sizes in the genome; pile-up, mask, mask complement, merge, clip and extend are "
+        "also run through the streamed per-chromosome path (as_stream(), Genome.get_intervals(stream) with every kind of "
+        "chunking, read_intervals(file, stream=True)) with chromosomes without entries at the start, in the middle and at the "
+        "END of the genome order. Non-trivial = "
         ">= 2 included chromosomes and some entry touches a chromosome end or position 0")
 EXHAUSTIVE = {"quick": False, "thorough": False}
 MODEL_OPS = {"l2g", "g2l", "pileup", "mask", "merge", "clip", "extend", "windows", "sort", "extract", "location"}
@@ -39,7 +45,10 @@ MANIFEST = {
             "own entries (cover_local); values under an interval are the slice of the chromosome's own dense array, reversed on '-'; "
             "clip / extend_to_size / windows with the size looked up by the row's own chromosome stay inside that chromosome and never "
             "reach a neighbour's global range; sorting = stable sort by (chromosome index, start, stop); ignored-chromosome filtering "
-            "keeps order and ranks. Merge: the shipped rule (merge in concatenated coordinates) is refuted in Lean with the boundary-"
+            "keeps order and ranks; the genome-wide array is exactly the concatenation of the included chromosomes' own arrays "
+            "(global_is_concat: length, sum, zero count, histograms follow) and the streamed per-chromosome path yields one "
+            "array per chromosome of the genome order, all-zero of full length for a chromosome without entries wherever it "
+            "is (stream_per_chromosome); get_location lies inside its own interval; Geometry.sort is in genome order. Merge: the shipped rule (merge in concatenated coordinates) is refuted in Lean with the boundary-"
             "touching witness, the repaired per-chromosome rule is proved equal to the per-chromosome single-contig merge. "
             "Generated obligations: the real clip / extend_to_size are executed on symbolic columns every run and the recorded "
             "expressions (Gen/C10.lean) are proved equal to the model's kernels with the row's OWN chromosome size; window flanks "
@@ -343,6 +352,102 @@ def _fasta_for(c):
     return path
 
 
+
+BINS = [0, 1, 2, 3]
+
+
+def _genomewide(t, op, compute=lambda x: x):
+    """genome-wide quantities of a pile-up / mask track (in-memory or streamed)"""
+    out = {"sum": int(compute(t.sum()))}
+    if op == "pileup":
+        out["zeros"] = int(compute((t == 0).sum()))
+        out["hist"] = _ints(compute(np.histogram(t, bins=BINS))[0])
+    else:
+        out["zeros"] = int(compute((~t).sum()))
+        out["hist"] = None
+    return out
+
+
+def _sorted_for_stream(c):
+    """entries in genome order (by chromosome position in the genome), so every chromosome's entries are contiguous"""
+    ks = [x[0] for x in c["iv"]]
+    return ks == sorted(ks)
+
+
+def _stream_gi(c, stranded):
+    """a fresh streamed GenomicIntervals (streams are consumed by every evaluation)"""
+    from bionumpy.streams import NpDataclassStream
+    from bionumpy.datatypes import Interval, StrandedInterval
+    G = _genome(c)
+    if c["path"] == "as_stream":
+        return G.get_intervals(_mk_intervals(c, stranded), stranded=stranded).as_stream()
+    if c["path"] == "file":
+        key = core.case_hash({"n": c["names"], "iv": c["iv"]})
+        fn = os.path.join(_tmpdir(), f"{key}-{os.getpid()}.bed")
+        if not os.path.exists(fn):
+            with open(fn, "w") as fh:
+                for x in c["iv"]:
+                    fh.write(f"{c['names'][x[0]]}\t{x[1]}\t{x[2]}\n")
+        return G.read_intervals(fn, stream=True)
+    bounds = [0] + list(c.get("cuts", [])) + [len(c["iv"])]
+    chunks = [_mk_intervals(dict(c, iv=c["iv"][a:b]), stranded) for a, b in zip(bounds[:-1], bounds[1:]) if b > a]
+    return G.get_intervals(NpDataclassStream(iter(chunks), StrandedInterval if stranded else Interval), stranded=stranded)
+
+
+def _dense_from_runs(c, runs):
+    """runs: (name, start, stop, value) in output order -> per included chromosome the dense array, None when the
+    chromosome does not occur at all; positions not covered by a run are reported as -1"""
+    incl = _incl_names(c)
+    d = {}
+    for n, a, b, v in runs:
+        arr = d.setdefault(n, [])
+        if len(arr) < b:
+            arr.extend([-1] * (b - len(arr)))
+        for p in range(a, b):
+            arr[p] = int(v)
+    return [d.get(n) for n in incl]
+
+
+def _call_stream(c):
+    import bionumpy as bnp
+    op = c["op"]
+    stranded = bool(c.get("stranded", False)) or op == "extend"
+    S = lambda: _stream_gi(c, stranded)
+    if op in ("pileup", "mask"):
+        T = (lambda: S().get_pileup()) if op == "pileup" else (lambda: S().get_mask())
+        if op == "pileup":
+            r = bnp.compute(T().get_data())
+            runs = list(zip(_names_of(r.chromosome), r.start.tolist(), r.stop.tolist(), np.asarray(r.value).tolist()))
+        else:
+            r1 = bnp.compute(T().get_data())
+            r0 = bnp.compute((~T()).get_data())
+            runs = [(n, a, b, 1) for n, a, b in zip(_names_of(r1.chromosome), r1.start.tolist(), r1.stop.tolist())] + \
+                   [(n, a, b, 0) for n, a, b in zip(_names_of(r0.chromosome), r0.start.tolist(), r0.stop.tolist())]
+        out = {"chroms": _dense_from_runs(c, runs)}
+        out.update(_genomewide_stream(T, op))
+        return out
+    if op == "clip":
+        r = S().clip().compute()
+    elif op == "extend":
+        r = S().extended_to_size(c["L"]).compute()
+    elif op == "merge":
+        r = S().merged(c["d"]).compute()
+    else:
+        raise ValueError(op)
+    return _obs_intervals(c, r.chromosome, r.start, r.stop)
+
+
+def _genomewide_stream(T, op):
+    import bionumpy as bnp
+    out = {"sum": int(bnp.compute(T().sum()))}
+    if op == "pileup":
+        out["zeros"] = int(bnp.compute((T() == 0).sum()))
+        out["hist"] = _ints(bnp.compute(np.histogram(T(), bins=BINS))[0])
+    else:
+        out["zeros"] = int(bnp.compute((~T()).sum()))
+        out["hist"] = None
+    return out
+
 def _call(c):
     """run the real entry point; returns the canonical observation"""
     import bionumpy as bnp
@@ -350,6 +455,8 @@ def _call(c):
     from bionumpy.datatypes import LocationEntry
     op, via = c["op"], c.get("via", "genome")
     stranded = bool(c.get("stranded", False))
+    if c.get("path", "mem") != "mem":
+        return _call_stream(c)
     if op in ("l2g", "g2l"):
         from bionumpy.genomic_data.genome_context import GenomeContext, ignore_underscores
         ctx = GenomeContext.from_dict(dict(zip(c["names"], c["sizes"])), ignore_underscores if c.get("filt", True) else None)
@@ -366,7 +473,12 @@ def _call(c):
         if op in ("pileup", "mask"):
             t = geo.get_pileup(iv) if op == "pileup" else geo.get_mask(iv)
             d = t.to_dict()
-            return {"chroms": [_ints(np.asarray(d[n]).astype(int)) for n in _incl_names(c)]}
+            out = {"chroms": [_ints(np.asarray(d[n]).astype(int)) for n in _incl_names(c)]}
+            out.update(_genomewide(t, op))
+            out["gsize"] = int(geo.size())
+            if op == "mask":
+                out["glob"] = _ints(np.asarray(geo.get_global_mask(iv).to_array()).astype(int))
+            return out
         if op == "merge":
             r = geo.merge_intervals(iv, c["d"])
         elif op == "clip":
@@ -387,7 +499,10 @@ def _call(c):
     if op in ("pileup", "mask"):
         t = gi.get_pileup() if op == "pileup" else gi.get_mask()
         d = t.to_dict()
-        return {"chroms": [_ints(np.asarray(d[n]).astype(int)) for n in _incl_names(c)]}
+        out = {"chroms": [_ints(np.asarray(d[n]).astype(int)) for n in _incl_names(c)]}
+        out.update(_genomewide(t, op))
+        out["gsize"] = int(G.size)
+        return out
     if op == "extract":
         t = _track_from_vals(c, G)
         return {"rows": _rows(t[gi])}
@@ -478,6 +593,11 @@ def oracle(c):
             l, r = c["wsize"] // 2, c["wsize"] // 2 + c["wsize"] % 2
         return {"iv": [[rank[x[0]], max(0, x[1] - l), min(sizes[x[0]], x[1] + r)] for x in c["pts"]]}
     iv = c["iv"]
+    path = c.get("path", "mem")
+    if path != "mem":
+        # the streamed path needs the data in genome order, and (as_stream / stream) every entry on an included chromosome
+        if via != "genome" or not _sorted_for_stream(c) or any(sizes[i] == 0 for i in incl):
+            return SKIP
     if via == "geometry" and any(rank[x[0]] is None for x in iv):
         return SKIP
     kept = [x for x in iv if rank[x[0]] is not None]     # rows on ignored chromosomes are dropped (mask_data)
@@ -494,7 +614,16 @@ def oracle(c):
         for i in incl:
             dense = [sum(1 for x in kept if x[0] == i and x[1] <= p < x[2]) for p in range(sizes[i])]
             chroms.append(dense if op == "pileup" else [1 if v else 0 for v in dense])
-        return {"chroms": chroms}
+        # genome-wide quantities are those of the concatenation of the included chromosomes' own arrays
+        flat = [v for ch in chroms for v in ch]
+        out = {"chroms": chroms, "sum": sum(flat), "zeros": sum(1 for v in flat if v == 0),
+               "hist": [sum(1 for v in flat if v == 0), sum(1 for v in flat if v == 1), sum(1 for v in flat if v in (2, 3))]
+               if op == "pileup" else None}
+        if path == "mem":
+            out["gsize"] = len(flat)
+            if via == "geometry" and op == "mask":
+                out["glob"] = flat
+        return out
     if op == "merge":
         ks = [(rank[x[0]], x[1]) for x in kept]
         if ks != sorted(ks):
@@ -662,6 +791,9 @@ def _pair_cases(top):
                 for via in ("genome", "geometry"):
                     yield dict(base, op="pileup", via=via, iv=[a, b], stranded=False)
                     yield dict(base, op="mask", via=via, iv=[b, a], stranded=False)
+                for path in ("as_stream", "stream"):
+                    yield dict(base, op="pileup", via="genome", path=path, iv=[a, b], stranded=False, cuts=[1] if a[0] != b[0] else [])
+                    yield dict(base, op="mask", via="genome", path=path, iv=[a, b], stranded=False, cuts=[])
                     yield dict(base, op="merge", via=via, iv=[a, b], d=0)
                     yield dict(base, op="merge", via=via, iv=[a, b], d=1)
                 yield dict(base, op="sort", via="genome", iv=[b, a])
@@ -717,6 +849,23 @@ def cases(tier, rng):
             stranded = rng.random() < 0.5
             for op in ("pileup", "mask"):
                 yield dict(base, op=op, via=via, iv=iv, stranded=stranded and via == "genome")
+            if via == "genome":
+                # the same observables through the streamed per-chromosome path; entries often leave the last
+                # (or first, or a middle) chromosomes empty
+                live = [i for i in range(len(names)) if sizes[i] > 0]
+                sub = rng.choice([live, live[:max(1, len(live) - 1)], live[:1], live[1:] or live, live[::2]])
+                ivs = sorted(_rand_iv(rng, sizes, sub, k), key=lambda x: (x[0], x[1]))
+                ivz = sorted(_rand_iv(rng, sizes, sub, k, valid=False), key=lambda x: x[0])
+                if ivs:
+                    for op in ("pileup", "mask"):
+                        yield dict(base, op=op, via=via, path="file", iv=ivs, cuts=[], stranded=False)
+                for path in ("as_stream", "stream"):
+                    cuts = sorted(rng.sample(range(1, len(ivs)), rng.randint(0, len(ivs) - 1))) if len(ivs) > 1 and path == "stream" else []
+                    for op in ("pileup", "mask"):
+                        yield dict(base, op=op, via=via, path=path, iv=ivs, cuts=cuts, stranded=False)
+                    yield dict(base, op="merge", via=via, path=path, iv=ivs, cuts=cuts, d=rng.choice([0, 1, 2]))
+                    yield dict(base, op="clip", via=via, path=path, iv=ivz, cuts=[])
+                    yield dict(base, op="extend", via=via, path=path, iv=ivs, cuts=cuts, L=rng.choice([0, 1, 3, 7]), stranded=True)
             ok, ig = _sorted_genome(iv, rank)
             merged_in = ok + ig if rng.random() < 0.5 else ig + ok
             yield dict(base, op="merge", via=via, iv=merged_in, d=rng.choice([0, 0, 1, 2]))
